@@ -61,6 +61,12 @@ impl Block for Midpointer {
             warn!("Midpointer got NaN");
         } else {
             let (mut a, mut b): (Vec<Float>, Vec<Float>) = v.iter().partition(|&t| *t > mean);
+            if a.is_empty() || b.is_empty() {
+                // Constant burst (or infinite mean): no high and low level to
+                // find the middle of. Nothing to decode either.
+                warn!("Midpointer got a burst without two levels");
+                return Ok(BlockRet::Again);
+            }
             a.sort_by(|a, b| a.partial_cmp(b).unwrap());
             b.sort_by(|a, b| a.partial_cmp(b).unwrap());
             let high = a[a.len() / 2];
@@ -216,8 +222,7 @@ fn find_best_bin(data: &[Complex]) -> Option<usize> {
         .iter()
         .take(data.len())
         .skip(skip)
-        .max_by(|a, b| a.partial_cmp(b).unwrap_or(std::cmp::Ordering::Equal))
-        .unwrap()
+        .max_by(|a, b| a.partial_cmp(b).unwrap_or(std::cmp::Ordering::Equal))?
         * 0.8;
 
     // Pick the first value that's above 80% of max and not still heading upwards.
